@@ -139,6 +139,8 @@ def real_decode(W, H, NI, MB, x):
 
 
 def replay(w):
+    if w.get("kind") == "errors_sym":
+        return replay_errors_sym(w)
     W, H, NI, MB, x = w["W"], w["H"], w["NI"], w["MB"], w["x"]
     try:
         sp, inst, inst2 = real_decode(W, H, NI, MB, x)
@@ -150,6 +152,27 @@ def replay(w):
     bad = (inst.name != "tn" or inst.bin_width != W or inst.bin_height != H or inst.n_items != NI or
            not ((MB - 1) * A < inst.total_item_area <= MB * A) or inst.lower_bound_bins != MB or inst.to_compact_str() != inst2.to_compact_str())
     return bad, info
+
+
+def replay_errors_sym(w):
+    import numpy as np
+    from moptipyapps.binpacking2d.instance import Instance
+    from moptipyapps.binpacking2d.instgen.instance_space import InstanceSpace
+    from moptipyapps.binpacking2d.instgen.errors import Errors
+    try:
+        tpl = Instance("tpl", w["W"], w["H"], w["template"])
+        er = Errors(InstanceSpace(tpl))
+    except ValueError as e:
+        return False, dict(rejected=str(e)[:100])
+    try:
+        if w.get("instance") is None:
+            v = float(er.evaluate([tpl]))
+            return v != 0.0, dict(value=v)
+        inst = Instance("gen", w["W"], w["H"], w["instance"])
+        v = float(er.evaluate([inst]))
+        return not (0.0 <= v <= 1.0), dict(value=v)
+    except ValueError as e:
+        return True, dict(raised=str(e)[:120])
 
 
 def x_from_model(model, saved, dim):
@@ -308,10 +331,112 @@ def job_errors(seed):
     return held(validated=cnt, paths=cnt, queries={}, summary=f"Errors objective: 0 on templates, in [0,1] on {cnt} decoded instances (concrete)")
 
 
+def job_errors_sym(reps_t, reps_i):
+    """Errors objective on SYMBOLIC instances (real Instance constructor, real InstanceSpace.__init__, real Errors.__init__ and
+    evaluate): (1) evaluate(template) == 0 for every template the space accepts with the given multiplicities; (2) for every
+    instance with the template's bin and number of items (what the decoder produces) evaluate does not raise and lies in [0, 1]"""
+    from . import pack_common as P
+    from moptipyapps.binpacking2d.instgen.instance_space import InstanceSpace
+    from moptipyapps.binpacking2d.instgen.errors import Errors
+    ov = core.install_builtins(dict(check_int_range=P.s_check_int_range))
+    sp_init = xform.transform(InstanceSpace.__init__, ov)
+    er_init = xform.transform(Errors.__init__, ov)
+    er_eval = xform.transform(Errors.evaluate, ov)
+    stats = dict(paths=0, sat=0, unsat=0, unknown=0, solver=0.0)
+    problems = []
+
+    def build(eng, with_other):
+        tpl = P.make_instance(eng, reps_t, name="tpl", maxdim=50)
+        lbb = fresh_int("lbb")
+        eng.assume(z3.And(lbb.e >= 1, lbb.e <= sum(reps_t)))
+        tpl.lower_bound_bins = lbb
+        sp = InstanceSpace.__new__(InstanceSpace)
+        try:
+            sp_init(sp, tpl)
+            er = Errors.__new__(Errors)
+            er_init(er, sp)
+        except ValueError:
+            return None, None, None        # the space rejects this template: nothing to show
+        return tpl, sp, er
+
+    def zero(eng):
+        tpl, sp, er = build(eng, False)
+        if tpl is None:
+            return "rejected"
+        try:
+            v = er_eval(er, [tpl])
+        except ValueError as e:
+            eng.oblige(False, "Errors.evaluate(template) raises: " + str(e)[:60], now=True)
+            return "raised"
+        eng.oblige(lift(v) == 0, "Errors.evaluate(template) == 0", now=True)
+        return "template"
+
+    def rng(eng):
+        tpl, sp, er = build(eng, True)
+        if tpl is None:
+            return "rejected"
+        if sum(reps_i) != sum(reps_t):
+            raise Abort("item counts differ")
+        # any instance with the template's bin and number of items (what InstanceDecoder.decode delivers)
+        f, Instance = P.instance_ctor()
+        nd = len(reps_i)
+        matrix = [[fresh_int(f"iw{k}"), fresh_int(f"ih{k}"), int(reps_i[k])] for k in range(nd)]
+        eng.assume(P.instance_domain(tpl.W.e, tpl.H.e, [(m[0], m[1], m[2]) for m in matrix]))
+        try:
+            out = xform.call_block(f, cls=Instance, name="gen", bin_width=tpl.W, bin_height=tpl.H, matrix=matrix)
+        except (ValueError, TypeError):
+            raise Abort("constructor rejects")
+        inst = out["obj"]
+        try:
+            v = er_eval(er, [inst])
+        except ValueError as e:
+            eng.oblige(False, "Errors.evaluate(decoded-like instance) raises: " + str(e)[:60], now=True)
+            return "raised"
+        eng.oblige(z3.And(lift(v) >= 0, lift(v) <= 1), "Errors.evaluate in [0, 1]", now=True)
+        return "instance"
+    outcomes = {}
+    for fn in (zero, rng):
+        eng = Engine(timeout_ms=60000, max_paths=3000)
+        ok = eng.explore(fn)
+        stats["paths"] += eng.paths
+        stats["sat"] += eng.n_sat
+        stats["unsat"] += eng.n_unsat
+        stats["unknown"] += eng.unknown
+        stats["solver"] += eng.t_solver
+        for k, v in eng.outcomes.items():
+            outcomes[k] = outcomes.get(k, 0) + v
+        if eng.violations:
+            v = eng.violations[0]
+            md = {d.name(): v.model[d] for d in v.model.decls()}
+
+            def val(nm):
+                return int(str(md[nm])) if nm in md else 1
+            w = dict(kind="errors_sym", label=v.label, W=val("W"), H=val("H"), template=[[val(f"w{k}"), val(f"h{k}"), int(reps_t[k])] for k in range(len(reps_t))],
+                     instance=[[val(f"iw{k}"), val(f"ih{k}"), int(reps_i[k])] for k in range(len(reps_i))] if fn is rng else None)
+            bad, info = replay(w)
+            w["observed"] = info
+            common = dict(paths=stats["paths"], queries=dict(sat=stats["sat"], unsat=stats["unsat"], unknown=stats["unknown"]), solver_s=round(stats["solver"], 2))
+            if bad:
+                return violated("errors_objective", "binpacking2d/instgen/errors.py", f"{v.label}: {w}", w, validated=1, **common)
+            return inconclusive(f"model does not replay: {w}", **common)
+        if not ok:
+            problems.append(f"{fn.__name__}: exploration not conclusive {eng.stats()}")
+    common = dict(paths=stats["paths"], queries=dict(sat=stats["sat"], unsat=stats["unsat"], unknown=stats["unknown"]), solver_s=round(stats["solver"], 2),
+                  vacuity=dict(outcomes=outcomes))
+    if problems:
+        return inconclusive("; ".join(problems)[:300], **common)
+    if not outcomes.get("template") or (sum(reps_i) == sum(reps_t) and not outcomes.get("instance")):
+        return inconclusive(f"vacuous: outcomes {outcomes}", **common)
+    return held(summary=f"Errors objective, template multiplicities {reps_t}, instance multiplicities {reps_i}: 0 on the template, no exception and within [0,1] on every instance of the space ({stats['paths']} paths)",
+                sample=dict(query="exists template / instance with Errors.evaluate(template) != 0, an exception, or a value outside [0,1]", answer="unsat"), **common)
+
+
 def jobs(tier):
     import os
     seed = int(os.environ.get("VERIF_SEED", "0") or 0)
     js = [Job("errors-objective", job_errors, dict(seed=seed), "errors_objective", 600)]
+    for rt, ri in [((1,), (1,)), ((2,), (1, 1)), ((1, 1), (2,)), ((1, 2), (1, 1, 1)), ((1, 1, 1), (3,))] + ([((2, 2), (1, 1, 2)), ((1, 1, 2), (2, 2)), ((3, 1), (1, 1, 1, 1))] if tier == "thorough" else []):
+        js.append(Job(f"errors-sym/t{'-'.join(map(str, rt))}/i{'-'.join(map(str, ri))}", job_errors_sym, dict(reps_t=list(rt), reps_i=list(ri)), "errors_objective", 900))
     import itertools
     cfg = [(3, 3, 3, 1, 0, 0), (3, 3, 3, 1, 1, 0), (3, 3, 4, 2, 0, 0), (3, 3, 4, 2, 1, 2), (4, 3, 3, 2, 2, 0), (2, 2, 3, 1, 1, 0), (2, 2, 3, 1, 2, 2), (3, 2, 3, 2, 2, 0)]
     if tier == "thorough":
